@@ -230,6 +230,43 @@ def demo_info(d, name):
     pkg = re.search(r'^package (\w+)', src, re.M).group(1)
     tests = "|".join(re.findall(r'^func (Test\w*)\(', src, re.M))
     return PKG_DIR.get(pkg, "zz_demo_" + name.replace('-', '').lower()), tests
+def from_readme(d):
+    """change / needs texts taken from the change's README (rounds without a hand-written entry)"""
+    try:
+        txt = open(d + '/README.md').read()
+    except OSError:
+        return None
+    lines = txt.split('\n')
+    title = next((l.lstrip('# ').strip() for l in lines if l.startswith('#')), '')
+    title = re.sub(r'^C\d+\s*/\s*m\d\s*[-\u2014:]+\s*', '', title)
+    title = re.sub(r'^m\d\s*[-\u2014:]+\s*', '', title)
+    needs = ''
+    for i, l in enumerate(lines):
+        if re.search(r'needs( in order)? to manifest|what it needs|trigger', l, re.I):
+            rest = []
+            tail = re.sub(r'^[#*\s]*(what it needs( in order)? to manifest|needs to manifest)[*:.\s]*(\(.*?\))?[*:.\s]*', '', l, flags=re.I).strip()
+            if tail and not l.lstrip().startswith('#'):
+                rest.append(tail)
+            for m in lines[i + 1:]:
+                if m.startswith('#') or (not m.strip() and rest):
+                    break
+                if m.strip():
+                    rest.append(m.strip().lstrip('*- ').strip())
+                if len(' '.join(rest)) > 350:
+                    break
+            needs = ' '.join(rest)
+            break
+    clean = lambda x: re.sub(r'\s+', ' ', x.replace('|', '/').replace('`', '')).strip()
+    needs = clean(needs)
+    if len(needs) > 380:
+        needs = needs[:377].rsplit(' ', 1)[0] + '...'
+    return (clean(title), needs)
+for d in sorted(os.listdir('/verif/seeded')):
+    full = '/verif/seeded/' + d
+    if os.path.isdir(full) and os.path.exists(full + '/patch.diff') and d not in NEEDS:
+        r = from_readme(full)
+        if r:
+            NEEDS[d] = r
 matrix = {}
 if os.path.exists('/verif/seeded/matrix.tsv'):
     for row in csv.reader(open('/verif/seeded/matrix.tsv'), delimiter='\t'):
